@@ -44,33 +44,42 @@ theorem id_accept (bs sz : Nat) (hbs : 0 < bs) (ops : List Op) (i : Nat) (data :
   · simp
   split
   · simp
-  · rename_i h1 h2 h3
+  split
+  · simp
+  · rename_i h1 h2 h3 h4
     have hi : i < numBlocks bs sz := by omega
     have hr := range_le (sz := sz) hbs hi
     have hl : data.length = blockLen bs sz i := by omega
-    simp only [h1, h2, h3, ↓reduceIte] at hlen
+    simp only [h1, h2, h3, h4, Bool.false_eq_true, ↓reduceIte] at hlen
     refine ⟨by simp, fun _ => ⟨?_, hi, hl, by omega, rfl, hlen⟩, by simp⟩
     rw [hmem]
     exact ⟨Nat.zero_le _, by simpa using h2⟩
 
 /-- Non-vacuity of `id_accept` (block size 2, 5-byte info): an accepted answer for the short last
-piece, and the three rejections. -/
+piece, and the four rejections. -/
 example :
     let d := run 2 (newWith 2 5) [.req 3]
     (gotBlock 2 d 2 [9]).2 = .ok ∧ (gotBlock 2 d 2 [9]).1.bytes = [0, 0, 0, 0, 9] ∧
     (gotBlock 2 d 2 [9, 9]).2 = .err .size ∧ (gotBlock 2 d 3 [9]).2 = .err .index ∧
-    (gotBlock 2 (run 2 (newWith 2 5) [.req 2]) 2 [9]).2 = .err .unrequested := by decide
+    (gotBlock 2 (run 2 (newWith 2 5) [.req 2]) 2 [9]).2 = .err .unrequested ∧
+    (gotBlock 2 (run 2 (newWith 2 5) [.req 3, .got 2 [9]]) 2 [8]).2 = .err .duplicate := by decide
 
-/-- **id_assembled_honest.** For every history from a fresh downloader in which no index is
-answered (accepted) twice: if `Done()` is true at the end, then every piece index has an accepted
-answer and `Bytes` is the concatenation of the accepted answers in index order. -/
-theorem id_assembled_honest (bs sz : Nat) (hbs : 0 < bs) (ops : List Op)
-    (once : ((accepted bs (newWith bs sz) ops).map (·.1)).Nodup)
+/-- **id_accepted_once.** With the repaired `GotBlock` no index is accepted twice, in every history
+(before the repair this was a hypothesis about the peer, `once` below). -/
+theorem id_accepted_once (bs sz : Nat) (hbs : 0 < bs) (ops : List Op) :
+    ((accepted bs (newWith bs sz) ops).map (·.1)).Nodup := by
+  have hI := hinv_run hbs ops (hinv_new (sz := sz) hbs)
+  simpa using hI.nd
+
+/-- **id_assembled.** For every history from a fresh downloader: if `Done()` is true at the end,
+then every piece index has an accepted answer and `Bytes` is the concatenation of the accepted
+answers in index order. -/
+theorem id_assembled (bs sz : Nat) (hbs : 0 < bs) (ops : List Op)
     (hdone : done (run bs (newWith bs sz) ops) = true) :
     (∀ i, i < numBlocks bs sz → ∃ data, (i, data) ∈ accepted bs (newWith bs sz) ops) ∧
     (run bs (newWith bs sz) ops).bytes = assembled bs sz (accepted bs (newWith bs sz) ops) := by
-  have h0 : HInv bs sz (newWith bs sz) [] := ⟨wf_new hbs, by simp [newWith], by simp⟩
-  have hI := hinv_run hbs ops h0 (by simpa using once)
+  have once := id_accepted_once bs sz hbs ops
+  have hI := hinv_run hbs ops (hinv_new (sz := sz) hbs)
   simp only [List.nil_append] at hI
   generalize run bs (newWith bs sz) ops = d at hI hdone
   generalize accepted bs (newWith bs sz) ops = A at hI once
@@ -105,20 +114,230 @@ theorem id_assembled_honest (bs sz : Nat) (hbs : 0 < bs) (ops : List Op)
         rw [← hp'i]
         exact ((hI.ans p' hm).2).symm
 
-/-- Non-vacuity of `id_assembled_honest`: an honest out-of-order exchange (block size 2, 5 bytes). -/
-example :
-    let ops := [Op.req 2, .got 1 [3, 4], .got 0 [1, 2], .req 2, .got 2 [5]]
-    ((accepted 2 (newWith 2 5) ops).map (·.1)).Nodup ∧ done (run 2 (newWith 2 5) ops) = true ∧
-    (run 2 (newWith 2 5) ops).bytes = [1, 2, 3, 4, 5] := by decide
+/-- **id_assembled_honest.** The statement as it was before the repair of `GotBlock`, with the
+hypothesis `once` (no index accepted twice) that `id_accepted_once` now discharges. -/
+theorem id_assembled_honest (bs sz : Nat) (hbs : 0 < bs) (ops : List Op)
+    (_once : ((accepted bs (newWith bs sz) ops).map (·.1)).Nodup)
+    (hdone : done (run bs (newWith bs sz) ops) = true) :
+    (∀ i, i < numBlocks bs sz → ∃ data, (i, data) ∈ accepted bs (newWith bs sz) ops) ∧
+    (run bs (newWith bs sz) ops).bytes = assembled bs sz (accepted bs (newWith bs sz) ops) :=
+  id_assembled bs sz hbs ops hdone
 
-/-- The behaviour the model deliberately keeps: a *repeated* answer is accepted again and
-decrements `pending`, so `Done()` can become true with a piece never received (here piece 1 stays
-zero).  This is why `id_assembled_honest` needs the `once` hypothesis, and why the safety of
-adoption rests on the hash gate alone (`adopt_only_if_hash`). -/
+/-- Non-vacuity of `id_assembled`: an out-of-order exchange with a repeated and a late answer
+(block size 2, 5 bytes); the repeats are refused and change nothing. -/
+example :
+    let ops := [Op.req 2, .got 1 [3, 4], .got 1 [9, 9], .got 0 [1, 2], .req 2, .got 0 [7, 7], .got 2 [5]]
+    done (run 2 (newWith 2 5) ops) = true ∧
+    (run 2 (newWith 2 5) ops).bytes = [1, 2, 3, 4, 5] ∧
+    accepted 2 (newWith 2 5) ops = [(1, [3, 4]), (0, [1, 2]), (2, [5])] := by decide
+
+/-! ### The repaired accounting of `pending` (finding C17-F6) -/
+
+/-- Largest window ever passed to `RequestBlocks` in a history (0 if none was positive). -/
+def maxQ : List Op → Int
+  | [] => 0
+  | .req q :: rest => max q (maxQ rest)
+  | .got _ _ :: rest => maxQ rest
+
+/-- **idl_pending_counts_outstanding.** In every reachable state `pending` is the number of blocks
+that were requested and whose answer has not been stored (`outstanding`), so it is never negative;
+and only requested blocks are marked received. -/
+theorem idl_pending_counts_outstanding (bs sz : Nat) (hbs : 0 < bs) (ops : List Op) :
+    let d := run bs (newWith bs sz) ops
+    d.pending = ((d.blocks.countP fun b => b.requested && !b.received : Nat) : Int) ∧
+    0 ≤ d.pending ∧
+    ∀ b ∈ d.blocks, b.received = true → b.requested = true := by
+  intro d
+  have hI := hinv_run hbs ops (hinv_new (sz := sz) hbs)
+  refine ⟨hI.cnt, by rw [hI.cnt]; omega, ?_⟩
+  intro b hb hr
+  obtain ⟨i, hi, rfl⟩ := List.mem_iff_getElem.1 hb
+  have hi' : i < numBlocks bs sz := by rw [← hI.wf.nblk]; exact hi
+  obtain ⟨hg, himp⟩ := hI.wf.blk i hi'
+  rw [List.getElem?_eq_getElem hi] at hg
+  simp only [Option.some.injEq] at hg
+  show (run bs (newWith bs sz) ops).blocks[i].requested = true
+  have hr' : recvd (run bs (newWith bs sz) ops) i = true := by
+    have : (run bs (newWith bs sz) ops).blocks[i].received = true := hr
+    rw [hg] at this; exact this
+  rw [hg]
+  simpa using himp hr'
+
+/-- **idl_pending_within_window.** `RequestBlocks(q)` from any reachable state: `pending` afterwards
+is at most `max q (pending before)`; the requests it sends plus those already outstanding stay
+within the window (`≤ max q outstanding`), and every request sent is counted as outstanding. -/
+theorem idl_pending_within_window (bs sz : Nat) (hbs : 0 < bs) (ops : List Op) (q : Int) :
+    let d := run bs (newWith bs sz) ops
+    let r := requestBlocks d q
+    r.1.pending ≤ max q d.pending ∧
+    (outstanding d : Int) + r.2.length ≤ max q (outstanding d) ∧
+    (outstanding r.1 : Int) = outstanding d + r.2.length := by
+  intro d r
+  have hI := hinv_run hbs ops (hinv_new (sz := sz) hbs)
+  obtain ⟨_, _, hnx, hs, hp, _, hout⟩ := requestBlocks_spec hI.wf q
+  have hle := (requestLoop_pending_le q (d.blocks.length - d.next) d []).1
+  have hlen : r.2.length = r.1.next - d.next := by
+    show (requestBlocks d q).2.length = _
+    rw [hs, List.length_range']
+  have hcnt : d.pending = (outstanding d : Int) := hI.cnt
+  have hp' : r.1.pending = d.pending + ((r.1.next - d.next : Nat) : Int) := hp
+  have hle' : r.1.pending ≤ max q d.pending := hle
+  refine ⟨hle', ?_, ?_⟩
+  · rw [hlen, ← hcnt, ← hp']; exact hle'
+  · rw [hlen]; exact hout
+
+/-- **idl_pending_bound** (for C17). After every history, `pending` — which is the number of requests
+without an answer — lies between 0 and the largest window ever passed to `RequestBlocks`. -/
+theorem idl_pending_bound (bs sz : Nat) (hbs : 0 < bs) (ops : List Op) :
+    let d := run bs (newWith bs sz) ops
+    0 ≤ d.pending ∧ d.pending ≤ maxQ ops ∧ (outstanding d : Int) ≤ maxQ ops := by
+  intro d
+  have hI := hinv_run hbs ops (hinv_new (sz := sz) hbs)
+  have key : ∀ (ops : List Op) (d0 : ID) (B : Int), 0 ≤ B → d0.pending ≤ B →
+      (run bs d0 ops).pending ≤ max B (maxQ ops) := by
+    intro ops
+    induction ops with
+    | nil => intro d0 B _ h; simp only [run, List.foldl_nil, maxQ]; omega
+    | cons op rest ih =>
+      intro d0 B hB h
+      cases op with
+      | req q =>
+        have h1 := (requestLoop_pending_le q (d0.blocks.length - d0.next) d0 []).1
+        have := ih (requestBlocks d0 q).1 (max B q) (by omega) (by
+          show (requestLoop q (d0.blocks.length - d0.next) d0 []).1.pending ≤ _; omega)
+        simp only [run, List.foldl_cons, step, maxQ] at this ⊢
+        omega
+      | got i data =>
+        have h1 : (gotBlock bs d0 i data).1.pending ≤ d0.pending := by
+          unfold gotBlock
+          repeat' split
+          all_goals first
+            | exact Int.le_refl _
+            | (show d0.pending - 1 ≤ d0.pending; omega)
+            | (simp only []; split <;> (show d0.pending - 1 ≤ d0.pending; omega))
+        have := ih (gotBlock bs d0 i data).1 B hB (by omega)
+        simp only [run, List.foldl_cons, step, maxQ] at this ⊢
+        exact this
+  have hk := key ops (newWith bs sz) 0 (Int.le_refl _) (by simp [newWith])
+  have hq : 0 ≤ maxQ ops := by
+    clear hk hI key d
+    induction ops with
+    | nil => simp [maxQ]
+    | cons op rest ih => cases op <;> simp only [maxQ] <;> omega
+  have hcnt : d.pending = (outstanding d : Int) := hI.cnt
+  have hk' : d.pending ≤ max 0 (maxQ ops) := hk
+  refine ⟨by omega, by omega, by omega⟩
+
+/-- **idl_done_iff_all_received.** In every reachable state `Done()` is true exactly when every
+block has a stored answer: never before (no premature `Done`), and as soon as the last answer is
+stored. -/
+theorem idl_done_iff_all_received (bs sz : Nat) (hbs : 0 < bs) (ops : List Op) :
+    let d := run bs (newWith bs sz) ops
+    done d = true ↔ ∀ b ∈ d.blocks, b.received = true := by
+  intro d
+  have hI := hinv_run hbs ops (hinv_new (sz := sz) hbs)
+  have hcnt : d.pending = (outstanding d : Int) := hI.cnt
+  have hnb : d.blocks.length = numBlocks bs sz := hI.wf.nblk
+  have hnl : d.next ≤ numBlocks bs sz := hI.wf.next_le
+  -- block `i` as the invariant describes it
+  have hget : ∀ i (hi : i < d.blocks.length),
+      d.blocks[i] = ⟨blockLen bs sz i, decide (i < d.next), recvd d i⟩ := by
+    intro i hi
+    have := (hI.wf.blk i (by omega)).1
+    rw [List.getElem?_eq_getElem hi] at this
+    simpa using this
+  simp only [done, Bool.and_eq_true, beq_iff_eq]
+  constructor
+  · rintro ⟨hn, hp⟩ b hb
+    have h0 : outstanding d = 0 := by omega
+    simp only [outstanding, List.countP_eq_zero] at h0
+    have := h0 b hb
+    obtain ⟨i, hi, rfl⟩ := List.mem_iff_getElem.1 hb
+    rw [hget i hi] at this ⊢
+    have hlt : i < d.next := by omega
+    simpa [hlt] using this
+  · intro hall
+    have hreq : ∀ i, i < d.blocks.length → i < d.next := by
+      intro i hi
+      have h1 := hall _ (List.getElem_mem hi)
+      rw [hget i hi] at h1
+      exact (hI.wf.blk i (by omega)).2 h1
+    have hn : d.next = d.blocks.length := by
+      by_cases h0 : d.blocks.length = 0
+      · omega
+      · have := hreq (d.blocks.length - 1) (by omega); omega
+    refine ⟨hn, ?_⟩
+    have h0 : outstanding d = 0 := by
+      simp only [outstanding, List.countP_eq_zero]
+      intro b hb
+      simp [hall b hb]
+    omega
+
+/-- Non-vacuity (block size 2, 5 bytes, windows 2 and 1): `pending` follows the outstanding
+requests through a repeated answer, the window is respected, `Done()` turns true with the last
+answer and not earlier. -/
+example :
+    let ops := [Op.req 2, .got 0 [1, 2], .got 0 [1, 2], .req 1]
+    let d := run 2 (newWith 2 5) ops
+    d.pending = 1 ∧ outstanding d = 1 ∧ maxQ ops = 2 ∧ done d = false ∧
+    (requestBlocks d 2).2 = [2] ∧ (requestBlocks d 2).1.pending = 2 ∧
+    done (run 2 d [.req 2, .got 1 [3, 4]]) = false ∧
+    done (run 2 d [.req 2, .got 1 [3, 4], .got 2 [5]]) = true := by decide
+
+/-- `GotBlock` as it was before the repair: no memory of stored answers, every accepted answer
+decrements `pending`. -/
+def gotBlockOld (bs : Nat) (d : ID) (index : Nat) (data : Bytes) : ID × GotRes :=
+  if index ≥ d.blocks.length then (d, .err .index) else
+  match d.blocks[index]? with
+  | none => (d, .panic)
+  | some b =>
+    if !b.requested then (d, .err .unrequested) else
+    if data.length ≠ b.size then (d, .err .size) else
+    let d1 := { d with pending := d.pending - 1 }
+    let begin := index * bs
+    let end_ := begin + b.size
+    if end_ > d.bytes.length then (d1, .panic) else
+    ({ d1 with bytes := d.bytes.take begin ++ data ++ d.bytes.drop end_ }, .ok)
+
+def stepOld (bs : Nat) (d : ID) : Op → ID
+  | .req q => (requestBlocks d q).1
+  | .got i data => (gotBlockOld bs d i data).1
+
+def runOld (bs : Nat) (d : ID) (ops : List Op) : ID := ops.foldl (stepOld bs) d
+
+/-- **idl_repeat_unfixed_counterexample** (finding C17-F6). With the old `GotBlock` (block size 4,
+a 12-byte info, three blocks), a peer that repeats its answers
+* drives `pending` below zero,
+* makes `RequestBlocks(1)` send two requests at once (window 1, two requests outstanding),
+* makes `Done()` true although blocks 1 and 2 never arrived (their bytes are still zero),
+and a peer that repeats only its first answer leaves `pending` at −1 when everything has arrived,
+so that `Done()` is never true.  The same histories on the repaired model refuse the repeats. -/
+theorem idl_repeat_unfixed_counterexample :
+    let d0 := newWith 4 12
+    -- pending below zero
+    (runOld 4 d0 [.req 1, .got 0 [1, 2, 3, 4], .got 0 [1, 2, 3, 4], .got 0 [1, 2, 3, 4]]).pending = -2 ∧
+    -- window 1, two requests in one call
+    (requestBlocks (runOld 4 d0 [.req 1, .got 0 [1, 2, 3, 4], .got 0 [1, 2, 3, 4]]) 1).2 = [1, 2] ∧
+    -- premature Done
+    (let d := runOld 4 d0 [.req 1, .got 0 [1, 2, 3, 4], .got 0 [1, 2, 3, 4], .req 1, .got 0 [1, 2, 3, 4]]
+     done d = true ∧ d.bytes = [1, 2, 3, 4, 0, 0, 0, 0, 0, 0, 0, 0]) ∧
+    -- Done never
+    (let d := runOld 4 d0 [.req 3, .got 0 [1, 2, 3, 4], .got 0 [1, 2, 3, 4], .got 1 [5, 6, 7, 8], .got 2 [9, 10, 11, 12]]
+     done d = false ∧ d.pending = -1 ∧ d.bytes = [1, 2, 3, 4, 5, 6, 7, 8, 9, 10, 11, 12]) ∧
+    -- the repaired model on the same histories
+    (run 4 d0 [.req 1, .got 0 [1, 2, 3, 4], .got 0 [1, 2, 3, 4], .got 0 [1, 2, 3, 4]]).pending = 0 ∧
+    (gotBlock 4 (run 4 d0 [.req 1, .got 0 [1, 2, 3, 4]]) 0 [1, 2, 3, 4]).2 = .err .duplicate ∧
+    (requestBlocks (run 4 d0 [.req 1, .got 0 [1, 2, 3, 4], .got 0 [1, 2, 3, 4]]) 1).2 = [1] ∧
+    done (run 4 d0 [.req 1, .got 0 [1, 2, 3, 4], .got 0 [1, 2, 3, 4], .req 1, .got 0 [1, 2, 3, 4]]) = false ∧
+    done (run 4 d0 [.req 3, .got 0 [1, 2, 3, 4], .got 0 [1, 2, 3, 4], .got 1 [5, 6, 7, 8], .got 2 [9, 10, 11, 12]]) = true := by
+  decide
+
+/-- The former `id_done_premature_by_repeat` (a repeated answer makes `Done()` true with a piece
+missing) now holds only of the old `GotBlock`; the repaired one refuses the repeat. -/
 theorem id_done_premature_by_repeat :
     let ops := [Op.req 2, .got 0 [1, 2], .got 0 [1, 2]]
-    done (run 2 (newWith 2 4) ops) = true ∧ (run 2 (newWith 2 4) ops).bytes = [1, 2, 0, 0] ∧
-    ¬ ((accepted 2 (newWith 2 4) ops).map (·.1)).Nodup := by decide
+    (done (runOld 2 (newWith 2 4) ops) = true ∧ (runOld 2 (newWith 2 4) ops).bytes = [1, 2, 0, 0]) ∧
+    (done (run 2 (newWith 2 4) ops) = false ∧ accepted 2 (newWith 2 4) ops = [(0, [1, 2])]) := by decide
 
 /-! ## Adoption (`torrent/torrent_metadataextension.go`, `torrent_infodownload.go`) -/
 section Adopt
